@@ -5,7 +5,11 @@ DEVIATIONS = [  # (cfg suffix, invariant that must be reported violated)
     ("aad_not_authenticated", "AcceptIff"),
     ("reserialised_header", "AcceptIff"),
     ("inflate_skipped", "PayloadIntact"),
+    # value classes: a payload whose tail looks like the PKCS #7 padding; a wrong key that starts with / is a prefix of the right one
+    ("unpad_greedy", "PayloadIntact"),
+    ("key_resized", "AcceptIff"),
 ]
+JOPTS = ["-Xmx3g"]  # shared machine: every TLC run with a heap cap
 HIST_DEVIATIONS = [  # spec/jose/JoseHist.tla: several parties, histories of calls on one parsed object
     ("open_consumes_object", "HistoryFree"),
     ("shared_entry_header", "HRoundTrip"),
@@ -21,7 +25,13 @@ def run(ctx):
         "x aad {absent, present} - x serialization {compact, JSON} x payload size {0, 1, 15, 16, 17, 1000}, together with every continuation "
         "the specification's state machine allows after Serialize: open with the same key, open with another key of the same kind, and one "
         "flipped bit in each field the serialization carries (protected header: any bit, the case bit of each member name, RS<->PS), each with "
-        "the outcome the specification computes. %s HISTORIES AND SEVERAL PARTIES (JoseHist.tla): a case is an object with 1..3 signers / "
+        "the outcome the specification computes. %s VALUE CLASSES: (a) wrong keys RELATED to the right symmetric key K of dir / AxxxKW / "
+        "AxxxGCMKW / HSxxx objects, on every object of the matrix with such a key: K + 1 octet, K + as many octets again (the size a sibling "
+        "algorithm takes), K + one / as many zero octets (not HSxxx), K minus its last octet, the first half of K - and the same on objects "
+        "made with a key whose second half is zero octets (a prefix = the key without trailing zeros), for every such key management x content "
+        "encryption; each must fail. (b) payload content classes whose tail looks like the PKCS #7 padding the CBC encryptions append: last "
+        "octet = 16-(L mod 16), a run of that octet as long as the padding, every octet that value (L=16: a block of 0x10), all 0x01, all 0x00 "
+        "- for L = %s x 6 content encryptions (key management %s) and signed (%s); must come back whole. HISTORIES AND SEVERAL PARTIES (JoseHist.tla): a case is an object with 1..3 signers / "
         "recipients, each with its own algorithm and key (one party: every signature algorithm and every key management x key kind x content "
         "encryption; 2 and 3 parties: every sequence over the tier's alphabet of algorithms of different families, general JSON serialization, "
         "with and without embedded jwk), with behaviours replayed on ONE parsed object: every sequence of %s Open calls over {every party's key, "
@@ -35,6 +45,9 @@ def run(ctx):
         % ("Quick: the whole key-management matrix at payload size 17 and every payload size for dir, A128KW, RSA-OAEP, ECDH-ES; 3 seeded bits "
            "per field (first byte, last byte, anywhere)." if quick else
            "Thorough: the full product; 3 seeded bits per field, and EVERY bit of every field for the objects with a 1 byte payload.",
+           "1..17, 32" if quick else "1..17, 31, 32, 33, 48, 1000",
+           "dir, compact" if quick else "dir, A128KW, A256GCMKW, RSA-OAEP; compact and JSON",
+           "HS256" if quick else "HS256, ES384",
            "2" if quick else "3 (one party) / 2"))
     ctx.exhaustive = True
     ctx.assumptions += [
@@ -55,30 +68,35 @@ def run(ctx):
         "https/acme signContent and getKeyAuthorization are unexported: the same path is replayed through the jose API "
         "(RS256/ES256/ES384 signer with nonce source and embedded JWK, JSON serialization; key authorization = token '.' base64url(Thumbprint))",
         "ECDSA signatures are required to be R||S of the curve's fixed width (RFC 7518 3.4) since the library's own verifier rejects any other length",
+        "related wrong keys: nothing is claimed for HSxxx about K followed by zero octets / K without its trailing zero octets - RFC 2104 pads a "
+        "short HMAC key with zeros, they are one key; the payload content classes are replayed without compression (with zip=DEF the content "
+        "cipher pads the DEFLATE stream, whose tail the payload does not determine) and, like the related keys, without tampering (orthogonal)",
     ]
     ctx.sany("jose", "Jose")
     ctx.sany("jose", "Gen_Jose")
     # MC: the oracle holds on the specification for the whole matrix, every tamper class, both keys
-    ctx.tlc("jose", "MC_Jose", "MC_Jose.cfg", coverage=not quick)
+    ctx.tlc("jose", "MC_Jose", "MC_Jose.cfg", coverage=not quick, jopts=JOPTS)
+    # ... and with every payload content class x key variant x related wrong key, sizes 15/16/17 (PadValue 1, 16, 15)
+    ctx.tlc("jose", "MC_Jose", "MC_Jose_values.cfg", jopts=JOPTS)
     # non-vacuity: each named deviation is caught by the invariant that states the clause it breaks
     for dev, inv in DEVIATIONS:
-        ctx.tlc("jose", "MC_Jose", "MC_Jose_dev_%s.cfg" % dev, expect_violation=inv, count_states=False, workers=1)
+        ctx.tlc("jose", "MC_Jose", "MC_Jose_dev_%s.cfg" % dev, expect_violation=inv, count_states=False, workers=1, jopts=JOPTS)
     # GEN: the case matrix with expectations
     cases = os.path.join(ctx.out, "cases.ndjson")
-    ctx.tlc("jose", "Gen_Jose", "Gen_Jose.%s.cfg" % ctx.tier, cases_to=cases, count_states=False, timeout=600)
+    ctx.tlc("jose", "Gen_Jose", "Gen_Jose.%s.cfg" % ctx.tier, cases_to=cases, count_states=False, timeout=600, jopts=JOPTS)
     res = ctx.replay("jose", cases, timeout=1500)
     ctx.judge("jose", cases, res)
     # several parties and histories on one parsed object (JoseHist.tla)
     ctx.sany("jose", "JoseHist")
     ctx.sany("jose", "Gen_JoseHist")
     # MC: the invariants hold on the specification for all behaviours: 1..2 parties, 2 steps (quick), and 1..3 parties, 3 steps
-    ctx.tlc("jose", "MC_JoseHist", "MC_JoseHist.cfg", coverage=not quick)
+    ctx.tlc("jose", "MC_JoseHist", "MC_JoseHist.cfg", coverage=not quick, jopts=JOPTS)
     if not quick:
-        ctx.tlc("jose", "MC_JoseHist", "MC_JoseHist_deep.cfg")
+        ctx.tlc("jose", "MC_JoseHist", "MC_JoseHist_deep.cfg", jopts=JOPTS)
     for dev, inv in HIST_DEVIATIONS:
-        ctx.tlc("jose", "MC_JoseHist", "MC_JoseHist_dev_%s.cfg" % dev, expect_violation=inv, count_states=False, workers=1)
+        ctx.tlc("jose", "MC_JoseHist", "MC_JoseHist_dev_%s.cfg" % dev, expect_violation=inv, count_states=False, workers=1, jopts=JOPTS)
     hcases = os.path.join(ctx.out, "hist_cases.ndjson")
-    ctx.tlc("jose", "Gen_JoseHist", "Gen_JoseHist.%s.cfg" % ctx.tier, cases_to=hcases, count_states=False, timeout=900)
+    ctx.tlc("jose", "Gen_JoseHist", "Gen_JoseHist.%s.cfg" % ctx.tier, cases_to=hcases, count_states=False, timeout=900, jopts=JOPTS)
     hres = ctx.replay("hist", hcases, timeout=1500)
     ctx.judge("hist", hcases, hres)
     ctx.notes["runs"] = sum((r.get("info") or {}).get("runs", 0) for r in res)
